@@ -403,8 +403,277 @@ def evaluate(env, cases, ch: Channel):
         ch.sample({"case": c, "status": r.status_code, "len": len(r.data)}, limit=3)
 
 
+
+# ---------------------------------------------------------------- history (request sequences)
+
+def canon_value(v, depth=0):
+    """order-free, address-free rendering of a module-level constant"""
+    import enum
+    if depth > 6:
+        return "…"
+    if isinstance(v, (set, frozenset)):
+        return "{" + ",".join(sorted(canon_value(x, depth + 1) for x in v)) + "}"
+    if isinstance(v, dict):
+        return "{" + ",".join(sorted(f"{canon_value(k, depth + 1)}:{canon_value(x, depth + 1)}" for k, x in v.items())) + "}"
+    if isinstance(v, (list, tuple)):
+        return "[" + ",".join(canon_value(x, depth + 1) for x in v) + "]"
+    if isinstance(v, enum.Enum):
+        return f"{type(v).__name__}.{v.name}"
+    if isinstance(v, (str, bytes, int, float, bool, type(None))):
+        return repr(v)
+    if callable(v):
+        return f"<callable {getattr(v, '__qualname__', type(v).__name__)}>"
+    if type(v).__name__ == "DashOption":
+        import dataclasses
+        if dataclasses.is_dataclass(v):
+            items = [(f.name, getattr(v, f.name, None)) for f in dataclasses.fields(v)]
+        elif hasattr(v, "__dict__"):
+            items = sorted(vars(v).items())
+        elif hasattr(v, "_asdict"):
+            items = sorted(v._asdict().items())
+        else:
+            items = [(k, getattr(v, k, None)) for k in getattr(type(v), "__slots__", ())]
+        return "DashOption(" + ",".join(f"{k}={canon_value(x, depth + 1)}" for k, x in items) + ")"
+    return f"<{type(v).__name__}>"
+
+
+CONST_MODULE_PREFIXES = ("dashlive.server.options", "dashlive.drm")
+
+
+def snapshot_constants() -> dict[str, str]:
+    """every module-level constant (UPPER_CASE name, or a DashOption instance) of the option
+    layer and the DRM package: shared defaults that no request may change"""
+    import sys
+    out = {}
+    for name, mod in list(sys.modules.items()):
+        if mod is None or not name.startswith(CONST_MODULE_PREFIXES):
+            continue
+        for attr, val in list(vars(mod).items()):
+            if attr.startswith("_") or isinstance(val, type(sys)) or isinstance(val, type):
+                continue
+            if attr.isupper() or type(val).__name__ == "DashOption":
+                out[f"{name}.{attr}"] = canon_value(val)
+        for cname, cls in list(vars(mod).items()):
+            if isinstance(cls, type) and cls.__module__ == name:
+                for attr, val in list(vars(cls).items()):
+                    if attr.isupper() and not callable(val):
+                        out[f"{name}.{cname}.{attr}"] = canon_value(val)
+    return out
+
+
+HIST_DRMS = ["playready", "clearkey", "marlin", "all", "playready,clearkey", "clearkey,marlin,playready",
+             "playready-moov", "playready-cenc-pro", "clearkey-cenc", "all-cenc", "all-moov", "playready-cenc,clearkey",
+             "marlin-pro,playready", None, "none"]
+
+
+def history_probes(env) -> list[dict]:
+    """init-segment requests re-issued after every step of a sequence"""
+    out = []
+    for name, stream in (("bbb_v6_enc", "bbb"), ("bbb_a1_enc", "bbb"), ("mk_v6_enc", "mk"), ("va_a1_enc", "va")):
+        for drm in ("playready", "clearkey", "all", "clearkey,playready", "playready-moov", "all-moov", "marlin"):
+            for route, mode in (("dash", "vod"), ("dash", "live"), ("mps", "live")):
+                if route == "mps" and stream not in {d for _, d in env.mps_periods}:
+                    continue
+                out.append({"kind": "init", "route": route, "stream": stream, "name": name, "mode": mode,
+                            "drm": drm, "version": None})
+    out.append({"kind": "init", "route": "dash", "stream": "bbb", "name": "bbb_v6", "mode": "live", "drm": "all", "version": None})
+    return out
+
+
+def history_steps(env, rng, n_random: int) -> list[dict]:
+    """the requests whose after-effects are looked for: manifests of every mode / route and DRM
+    option form, media segments, on-demand media, licence requests"""
+    steps = []
+    # targeted: every mode x (bare name, all, explicit list) on the default manifest, odvod first
+    for mode in ("odvod", "vod", "live"):
+        for drm in ("playready", "all", "clearkey", "playready-cenc-pro", "clearkey,playready", "all-moov"):
+            steps.append({"op": "GET", "url": f"/dash/{mode}/bbb/hand_made.mpd" + lib.query({"drm": drm})})
+    for mode in ("vod", "live"):
+        for drm in ("all", "playready"):
+            steps.append({"op": "GET", "url": f"/mps/{mode}/{c11_env.MPS_NAME}/hand_made.mpd" + lib.query({"drm": drm})})
+    manifests = ["hand_made.mpd", "manifest_e.mpd", "manifest_h.mpd", "manifest_n.mpd", "manifest_i.mpd", "manifest_ef.mpd"]
+    for _ in range(n_random):
+        r = rng.random()
+        drm = rng.choice(HIST_DRMS) if rng.random() < .7 else lib.random_mixed_selection(rng)
+        ver = rng.choice([None, None, "1.0", "3.0"])
+        q = {"drm": drm, "playready__version": ver}
+        if r < .45:
+            mode = rng.choice(["odvod", "vod", "live"])
+            mf = "hand_made.mpd" if mode == "odvod" and rng.random() < .7 else \
+                ("manifest_vod_aiv.mpd" if mode == "odvod" else rng.choice(manifests))
+            steps.append({"op": "GET", "url": f"/dash/{mode}/{rng.choice(['bbb', 'mk', 'va', 'tears'])}/{mf}" + lib.query(q)})
+        elif r < .55:
+            steps.append({"op": "GET", "url": f"/mps/{rng.choice(['vod', 'live'])}/{c11_env.MPS_NAME}/hand_made.mpd" + lib.query(q)})
+        elif r < .7:
+            steps.append({"op": "GET", "url": f"/dash/vod/bbb/{rng.choice(['bbb_v6_enc', 'bbb_a1_enc', 'bbb_v7'])}/"
+                                              f"{rng.randrange(1, 6)}.{rng.choice(['m4v', 'mp4'])}" + lib.query(q)})
+        elif r < .8:
+            steps.append({"op": "GET", "url": f"/dash/odvod/bbb/{rng.choice(['bbb_v6_enc', 'bbb_a1_enc'])}.mp4" + lib.query(q),
+                          "headers": {"Range": f"bytes=0-{rng.randrange(100, 2000)}"}})
+        elif r < .9:
+            steps.append({"op": "POST", "url": "/clearkey",
+                          "json": {"kids": [orc.b64url(c11_env.KID_A), orc.b64url(c11_env.KID_B)], "type": "temporary"}})
+        else:
+            m = rng.choice([x for x in env.media() if x["stream"] != "mx"])
+            steps.append({"op": "GET", "url": lib.init_url(m, rng.choice(["vod", "live"]), {k: v for k, v in q.items() if v})})
+    return steps
+
+
+def do_step(env, step):
+    import appboot
+    client = env.app.client()
+    with appboot.Clock("2024-05-01T12:00:00Z"):
+        if step["op"] == "POST":
+            return client.post(step["url"], json=step.get("json"))
+        return client.get(step["url"], headers=step.get("headers") or {})
+
+
+def probe_key(c) -> str:
+    return json.dumps(c, sort_keys=True)
+
+
+def run_history(env, steps, probes, baseline=None, probes_per_step=6, rng=None, stop_at_first=True):
+    """execute `steps` in this process; after each one compare the module-level constants with
+    their values before the sequence and re-issue init probes.  Returns (failures, stats).
+    A failure carries the request sequence that leads to it."""
+    import hashlib
+    stats = {"steps": 0, "probes": 0, "statuses": {}}
+    fails = []
+    if baseline is None:
+        baseline = {}
+        for c in probes:
+            m, r = fetch(env, c)
+            baseline[probe_key(c)] = (r.status_code, bytes(r.data))
+            for f in oracle_init(env, c, m, r):
+                fails.append(dict(f, what="before any other request: " + f["what"], sequence=[], probe=c, case={"kind": "history", "sequence": [], "probe": c}))
+    const0 = snapshot_constants()
+    const_fails = []
+    done = []
+    for i, step in enumerate(steps):
+        r = do_step(env, step)
+        done.append(step)
+        stats["steps"] += 1
+        stats["statuses"][r.status_code] = stats["statuses"].get(r.status_code, 0) + 1
+        const1 = snapshot_constants()
+        changed = sorted(k for k in set(const0) | set(const1) if const0.get(k) != const1.get(k))
+        force_all = False
+        if changed:
+            k = changed[0]
+            const_fails.append({"what": f"module-level constant {k} changed from {const0.get(k)} to {const1.get(k)} while serving {step['url']}",
+                                "case": {"kind": "history", "sequence": list(done), "probe": None, "constant": k}})
+            const0 = const1
+            force_all = True          # look for the visible consequence right away
+        if force_all or rng is None or len(probes) <= probes_per_step or i == len(steps) - 1:
+            todo = probes
+        else:
+            todo = rng.sample(probes, probes_per_step)
+        for c in todo:
+            m, pr = fetch(env, c)
+            stats["probes"] += 1
+            b = baseline[probe_key(c)]
+            what = None
+            if (pr.status_code, bytes(pr.data)) != b:
+                what = (f"init response depends on the requests served before: after {len(done)} request(s) "
+                        f"(last {step['url']}) status {pr.status_code}, {len(pr.data)} bytes "
+                        f"(sha1 {hashlib.sha1(pr.data).hexdigest()[:10]}) instead of status {b[0]}, {len(b[1])} bytes "
+                        f"(sha1 {hashlib.sha1(b[1]).hexdigest()[:10]}) on a fresh application")
+            of = oracle_init(env, c, m, pr)
+            if what is None and of:
+                what = of[0]["what"]
+            elif what is not None and of:
+                what += "; " + of[0]["what"]
+            if what:
+                fails.append({"what": what, "case": {"kind": "history", "sequence": list(done), "probe": c}})
+                break
+        if (fails or const_fails) and stop_at_first:
+            break
+    # the visible consequence (an init response that changed) first, the mutated constant after it
+    return fails + const_fails, stats, baseline
+
+
+def history_subprocess(case, timeout=300) -> bool | None:
+    """replay a history case in a fresh interpreter; True = it fails there"""
+    code = ("import sys, json; sys.dont_write_bytecode = True\n"
+            "import check, importlib\n"
+            "mod = importlib.import_module('props.c10')\n"
+            "case = json.loads(sys.stdin.read())\n"
+            "print('RESULT', json.dumps(bool(mod.replay_history(case)['fails'])))\n")
+    try:
+        p = common.run_python(["-c", code], timeout=timeout, input=json.dumps(case),
+                              env_extra={"DASHLIVE_REPO": str(common.REPO)})
+    except Exception:
+        return None
+    for line in p.stdout.splitlines():
+        if line.startswith("RESULT "):
+            return json.loads(line[7:])
+    return None
+
+
+def shrink_history(case) -> dict:
+    """a shorter sequence that still fails in a fresh process: the last request alone, else the
+    last request preceded by each earlier one, else the sequence as found"""
+    seq = case["sequence"]
+    if len(seq) <= 1:
+        return case
+    cands = [[seq[-1]]] + [[s, seq[-1]] for s in seq[:-1][-3:]]
+    for cand in cands:
+        c = dict(case, sequence=cand)
+        if history_subprocess(c) is True:
+            return c
+    return case
+
+
+def replay_history(case) -> dict:
+    env = c11_env.get_env()
+    probes = [case["probe"]] if case.get("probe") else history_probes(env)[:8]
+    fails, stats, _ = run_history(env, case["sequence"], probes)
+    return {"fails": bool(fails), "failures": fails[:3], "case": case, "stats": stats}
+
+
+def ch_history(ctx, env) -> Channel:
+    ch = Channel("init_history", rule=(
+        "sequences of requests against ONE in-process application, issued before any other channel touches it: "
+        "manifests of every mode (odvod, vod, live) and route (/dash, /mps) x DRM option forms (bare names, all, "
+        "explicit location lists, mixes, none), media segments, on-demand media ranges, licence requests and init "
+        "requests, interleaved with a fixed set of init-segment probes (encrypted single-/two-key/split-key "
+        "tracks x bare / all / explicit selections x vod, live, multi-period).  After every request (a) every probe "
+        "response must be byte-identical to the response recorded on the fresh application and satisfy the init "
+        "oracle, (b) the model's prediction for the probe alone must equal it (serveSeq = map serveInit), (c) no "
+        "module-level constant of dashlive.server.options / dashlive.drm (ALL_DRM_LOCATIONS, DashOption "
+        "definitions, system ids …) may have changed; non-trivial = probe fetched after at least one manifest "
+        "request; distinct by (step index, probe)"))
+    rng = ctx.rng("history")
+    probes = history_probes(env)
+    steps = history_steps(env, rng, ctx.scale(40, 1500))
+    fails, stats, baseline = run_history(env, steps, probes, rng=rng, probes_per_step=ctx.scale(6, 12))
+    ch.evaluations = stats["probes"] + stats["steps"] + len(probes)
+    for st, n in sorted(stats["statuses"].items()):
+        ch.count(f"step status {st}", n)
+    ch.count("probes re-issued", stats["probes"])
+    for i in range(stats["probes"]):
+        ch.nontrivial.add(i)
+    # (b) the model's single-request prediction for every probe (the history-free function)
+    lines, idx = [], []
+    media = {m["name"]: m for m in env.media()}
+    for c in probes:
+        st, data = baseline[probe_key(c)]
+        if st == 200:
+            lines.append(model_line(env, c, media[c["name"]]))
+            idx.append((c, data))
+    for (c, data), mo in zip(idx, drive(lines, ch)):
+        if mo not in ("driver-error", "err") and mo != data.hex():
+            ch.disagreements.append({"case": c, "model": mo[:120], "impl": data.hex()[:120]})
+    for f in fails[:3]:
+        if f["case"].get("sequence"):
+            f = dict(f, case=shrink_history(f["case"]))
+        ch.oracle_failures.append(f)
+    ch.sample({"steps": [s["url"] for s in steps[:4]], "probes": len(probes)}, limit=1)
+    return ch
+
+
 def channels(ctx):
     env = c11_env.get_env()
+    yield ch_history(ctx, env)          # first: its baseline is the fresh application
     ch = Channel("init_e2e", rule=(
         "GET init segments of every fixture track (bbb clear+encrypted audio/video/text, tears, two-key mk) on the "
         "single-period and multi-period routes, live and vod, for every subset of DRM systems x every subset of "
@@ -540,7 +809,10 @@ def search(ctx, disagreements):
     env = c11_env.get_env()
     seeds = [d["case"] for d in disagreements if isinstance(d.get("case"), dict) and d["case"].get("kind") == "init"]
     rng = ctx.rng("search")
-    for c in itertools.chain(seeds, REGRESSION, mixed_cases(env, rng, 500), all_cases(env, (None, "1.0", "4.0"))):
+    pool = itertools.chain(seeds, REGRESSION, mixed_cases(env, rng, 500), all_cases(env, (None, "1.0", "4.0")))
+    if not ctx.thorough:
+        pool = itertools.islice(pool, 5000)        # keep the quick tier bounded when a proof obligation breaks
+    for c in pool:
         f = oracle_init(env, c)
         if f:
             return f[0]
@@ -550,6 +822,8 @@ def search(ctx, disagreements):
 def replay(ctx, payload):
     f = payload.get("failure") or {}
     case = f.get("case")
+    if isinstance(case, dict) and case.get("kind") == "history":
+        return replay_history(case)
     if isinstance(case, dict) and case.get("kind") == "drmsel":
         fails = oracle_drmsel(case["value"])
         return {"fails": bool(fails), "failures": fails, "case": case}
